@@ -149,7 +149,7 @@ func (c *c11ctx) ruleR1() {
 		}
 	}
 	// the queueing function itself
-	q := c.rv.Queue
+	q := c.rv.Handoff
 	c.r.Fn(FuncName(q))
 	armStart := map[ssa.Instruction]bool{} // first instruction of a select arm in which the hand-off fired
 	Instrs(q, func(in ssa.Instruction) {
@@ -490,7 +490,7 @@ func (c *c11ctx) ruleR5() {
 	var roots []*ssa.Function
 	roots = append(roots, c.rv.Closures...)
 	for _, h := range c.rv.Handlers {
-		if ok, _ := p.Reaches(h, func(f *ssa.Function) bool { return f == c.rv.Queue }, 4); ok {
+		if ok, _ := p.Reaches(h, func(f *ssa.Function) bool { return c.rv.Queues[f] }, 4); ok {
 			roots = append(roots, h)
 		}
 	}
@@ -509,7 +509,7 @@ func (c *c11ctx) ruleR5() {
 		for _, f := range gs.Callees {
 			calls := false
 			Instrs(f, func(in ssa.Instruction) {
-				if cc := CallOf(in); cc != nil && cc.StaticCallee() == c.rv.Queue {
+				if cc := CallOf(in); cc != nil && cc.StaticCallee() != nil && c.rv.Queues[cc.StaticCallee()] {
 					calls = true
 				}
 			})
@@ -547,7 +547,7 @@ func (c *c11ctx) ruleR5() {
 					// goroutines started from request code: still a server crash if they panic
 				}
 				for _, cal := range p.callees(in) {
-					if cal == c.rv.Queue {
+					if c.rv.Queues[cal] {
 						continue
 					}
 					walk(cal, path)
